@@ -17,6 +17,9 @@ type Clause struct {
 	Expr  ast.Expr // parsed (positions meaningless)
 	Line  string   // file:line of the contract text
 	orig  ast.Expr // the expression as parsed, before CheckClause's substitutions (re-checks start from it)
+	// Hidden: an `establishes` clause - a postcondition that is an obligation of the body but is not assumed at
+	// call sites (an object invariant over an encapsulated representation: clients cannot use it)
+	Hidden bool
 }
 
 type LoopSpec struct {
@@ -119,6 +122,10 @@ type PkgContracts struct {
 	GhostFields map[string]bool // accessor function names that denote ghost heap fields
 	Axioms    []*Clause
 	Memos     []MemoDecl
+	// Private: heap keys (written as they appear in frame obligation names, e.g. common_LRU.items, ghost:common.elems,
+	// mapval:map_...) that make up an encapsulated representation of this package: functions of OTHER packages
+	// have no frame obligation for them (they cannot name or touch them; the load-time scan checks that).
+	Private   []string
 	Opaque    map[string]bool // ghost functions whose body is visible only where revealed
 }
 
@@ -129,10 +136,10 @@ type MemoDecl struct {
 	Line              string
 }
 
-var clauseKW = map[string]bool{"scope": true, "noread": true, "implements": true, "ghostset": true, "ints": true, "safety": true, "requires": true, "assume": true, "ensures": true, "aux": true, "modifies": true,
+var clauseKW = map[string]bool{"scope": true, "noread": true, "implements": true, "ghostset": true, "ints": true, "safety": true, "requires": true, "assume": true, "ensures": true, "establishes": true, "aux": true, "modifies": true,
 	"loop": true, "call": true, "callback": true, "registers": true, "rely": true, "reveal": true, "opaque": true, "trusted": true, "inline": true, "pure": true, "float": true}
 
-var reHead = regexp.MustCompile(`^(requires|assume|ensures|rely|aux|invariant|assert|decreases)(\[[^\]]+\])?\s*(.*)$`)
+var reHead = regexp.MustCompile(`^(requires|assume|ensures|establishes|rely|aux|invariant|assert|decreases)(\[[^\]]+\])?\s*(.*)$`)
 
 // ParseContracts parses the //@ lines of one contracts_verif.go file.
 func ParseContracts(filename, pkgPath string, src []byte) (*PkgContracts, error) {
@@ -157,7 +164,7 @@ func ParseContracts(filename, pkgPath string, src []byte) (*PkgContracts, error)
 			continue
 		}
 		first := strings.FieldsFunc(trim, func(r rune) bool { return r == ' ' || r == '[' || r == '\t' })[0]
-		isNew := clauseKW[first] || first == "func" || first == "ghost" || first == "lemma" || first == "import" || first == "axiom" || first == "iface" || first == "memo"
+		isNew := clauseKW[first] || first == "func" || first == "ghost" || first == "lemma" || first == "import" || first == "axiom" || first == "iface" || first == "memo" || first == "private"
 		if isNew || len(items) == 0 {
 			items = append(items, item{trim, i + 1})
 		} else {
@@ -223,6 +230,9 @@ func ParseContracts(filename, pkgPath string, src []byte) (*PkgContracts, error)
 			}
 			i := strings.Index(f[1], ".")
 			pc.Memos = append(pc.Memos, MemoDecl{Type: f[1][:i], Field: f[1][i+1:], Pred: f[2], Line: loc})
+			cur = nil
+		case "private":
+			pc.Private = append(pc.Private, strings.Fields(text)[1:]...)
 			cur = nil
 		case "axiom":
 			m := regexp.MustCompile(`^axiom(\[[^\]]+\])?\s*(.*)$`).FindStringSubmatch(text)
@@ -478,6 +488,13 @@ func parseClause(c *Contract, text, loc string) error {
 			if cl.Label == "" {
 				cl.Label = fmt.Sprintf("e%d", len(c.Ensures)+1)
 			}
+			c.Ensures = append(c.Ensures, cl)
+		case "establishes":
+			if cl.Label == "" {
+				cl.Label = fmt.Sprintf("e%d", len(c.Ensures)+1)
+			}
+			cl.Kind = "ensures"
+			cl.Hidden = true
 			c.Ensures = append(c.Ensures, cl)
 		case "rely":
 			if cl.Label == "" {
